@@ -29,58 +29,65 @@
   SPEC_LD_(w,p,n,(j)+5); SPEC_LD_(w,p,n,(j)+6); SPEC_LD_(w,p,n,(j)+7); SPEC_LD_(w,p,n,(j)+8); SPEC_LD_(w,p,n,(j)+9)
 #define SPEC_PAD10_(w, j) (w)[(j)+0] = 0x80; (w)[(j)+1] = 0x80; (w)[(j)+2] = 0x80; (w)[(j)+3] = 0x80; (w)[(j)+4] = 0x80; \
   (w)[(j)+5] = 0x80; (w)[(j)+6] = 0x80; (w)[(j)+7] = 0x80; (w)[(j)+8] = 0x80; (w)[(j)+9] = 0x80
+#define SPEC_WINDOW20(w, p, n) uint8_t w[30]; SPEC_LD10_(w,p,n,0); SPEC_LD10_(w,p,n,10); SPEC_PAD10_(w,20)
 #define SPEC_WINDOW(w, p, n) uint8_t w[50]; SPEC_LD10_(w,p,n,0); SPEC_LD10_(w,p,n,10); SPEC_LD10_(w,p,n,20); SPEC_LD10_(w,p,n,30); SPEC_PAD10_(w,40)
 
 /* length of the LEB128 group sequence starting at w[s] (s <= 40): index of the
- * first byte without continuation bit, plus one, at most 10; 0 = none */
+ * first byte without continuation bit, plus one, at most 10; 0 = none.
+ * (Macros over the local array: w never has its address taken, which keeps the
+ * dfcc instrumentation of these pure functions cheap.) */
 #define SPEC_T_(w, s, j) (((w)[(s) + (j)] & 128) == 0)
-static size_t spec_wlen(const uint8_t *w, size_t s) {
-  return SPEC_T_(w, s, 0) ? 1 : SPEC_T_(w, s, 1) ? 2 : SPEC_T_(w, s, 2) ? 3 : SPEC_T_(w, s, 3) ? 4 :
-         SPEC_T_(w, s, 4) ? 5 : SPEC_T_(w, s, 5) ? 6 : SPEC_T_(w, s, 6) ? 7 : SPEC_T_(w, s, 7) ? 8 :
-         SPEC_T_(w, s, 8) ? 9 : SPEC_T_(w, s, 9) ? 10 : 0;
-}
+#define SPEC_WLEN(w, s) ((size_t)(SPEC_T_(w, s, 0) ? 1 : SPEC_T_(w, s, 1) ? 2 : SPEC_T_(w, s, 2) ? 3 : SPEC_T_(w, s, 3) ? 4 : \
+         SPEC_T_(w, s, 4) ? 5 : SPEC_T_(w, s, 5) ? 6 : SPEC_T_(w, s, 6) ? 7 : SPEC_T_(w, s, 7) ? 8 : \
+         SPEC_T_(w, s, 8) ? 9 : SPEC_T_(w, s, 9) ? 10 : 0))
 /* value of the k-byte LEB128 sequence at w[s], truncated to 64 bits */
-static uint64_t spec_wval(const uint8_t *w, size_t s, size_t k) { return V64_VAL(w + s, k); }
+#define SPEC_G_(w, s, j, k) (((size_t)(j) < (k) ? (uint64_t)((w)[(s) + (j)] & 127) : (uint64_t)0) << (7 * (j)))
+#define SPEC_WVAL(w, s, k) ((uint64_t)(SPEC_G_(w,s,0,k) | SPEC_G_(w,s,1,k) | SPEC_G_(w,s,2,k) | SPEC_G_(w,s,3,k) | SPEC_G_(w,s,4,k) | \
+         SPEC_G_(w,s,5,k) | SPEC_G_(w,s,6,k) | SPEC_G_(w,s,7,k) | SPEC_G_(w,s,8,k) | SPEC_G_(w,s,9,k)))
 
-static size_t spec_v64_len(const uint8_t *p, size_t n) { SPEC_WINDOW(w, p, n); return spec_wlen(w, 0); }
+static size_t spec_v64_len(const uint8_t *p, size_t n) { SPEC_WINDOW20(w, p, n); return SPEC_WLEN(w, 0); }
 
 /* encoded length of a handle at (p, n); 0 = no well-formed handle there */
 static size_t spec_handle_len(const uint8_t *p, size_t n) {
-  SPEC_WINDOW(w, p, n);
-  size_t k1 = spec_wlen(w, 0);
-  size_t k2 = k1 ? spec_wlen(w, k1) : 0;
+  SPEC_WINDOW20(w, p, n);
+  size_t k1 = SPEC_WLEN(w, 0);
+  size_t k2 = k1 ? SPEC_WLEN(w, k1) : 0;
   return (k1 && k2) ? k1 + k2 : 0;
 }
 static uint64_t spec_handle_offset(const uint8_t *p, size_t n) {
-  SPEC_WINDOW(w, p, n);
-  return spec_wval(w, 0, spec_wlen(w, 0));
+  SPEC_WINDOW20(w, p, n);
+  size_t k1 = SPEC_WLEN(w, 0);
+  return SPEC_WVAL(w, 0, k1);
 }
 static uint64_t spec_handle_size(const uint8_t *p, size_t n) {
-  SPEC_WINDOW(w, p, n);
-  size_t k1 = spec_wlen(w, 0);
-  return spec_wval(w, k1, spec_wlen(w, k1));
+  SPEC_WINDOW20(w, p, n);
+  size_t k1 = SPEC_WLEN(w, 0);
+  size_t k2 = SPEC_WLEN(w, k1);
+  return SPEC_WVAL(w, k1, k2);
 }
 /* the second of two consecutive handles at (p, n) (footer: index handle) */
 static size_t spec_handle2_len(const uint8_t *p, size_t n) {
   SPEC_WINDOW(w, p, n);
-  size_t k1 = spec_wlen(w, 0);
-  size_t k2 = k1 ? spec_wlen(w, k1) : 0;
-  size_t k3 = k2 ? spec_wlen(w, k1 + k2) : 0;
-  size_t k4 = k3 ? spec_wlen(w, k1 + k2 + k3) : 0;
+  size_t k1 = SPEC_WLEN(w, 0);
+  size_t k2 = k1 ? SPEC_WLEN(w, k1) : 0;
+  size_t k3 = k2 ? SPEC_WLEN(w, k1 + k2) : 0;
+  size_t k4 = k3 ? SPEC_WLEN(w, k1 + k2 + k3) : 0;
   return (k3 && k4) ? k3 + k4 : 0;
 }
 static uint64_t spec_handle2_offset(const uint8_t *p, size_t n) {
   SPEC_WINDOW(w, p, n);
-  size_t k1 = spec_wlen(w, 0);
-  size_t k2 = spec_wlen(w, k1);
-  return spec_wval(w, k1 + k2, spec_wlen(w, k1 + k2));
+  size_t k1 = SPEC_WLEN(w, 0);
+  size_t k2 = SPEC_WLEN(w, k1);
+  size_t k3 = SPEC_WLEN(w, k1 + k2);
+  return SPEC_WVAL(w, k1 + k2, k3);
 }
 static uint64_t spec_handle2_size(const uint8_t *p, size_t n) {
   SPEC_WINDOW(w, p, n);
-  size_t k1 = spec_wlen(w, 0);
-  size_t k2 = spec_wlen(w, k1);
-  size_t k3 = spec_wlen(w, k1 + k2);
-  return spec_wval(w, k1 + k2 + k3, spec_wlen(w, k1 + k2 + k3));
+  size_t k1 = SPEC_WLEN(w, 0);
+  size_t k2 = SPEC_WLEN(w, k1);
+  size_t k3 = SPEC_WLEN(w, k1 + k2);
+  size_t k4 = SPEC_WLEN(w, k1 + k2 + k3);
+  return SPEC_WVAL(w, k1 + k2 + k3, k4);
 }
 
 /* reader of one handle: r result, (off, size) decoded, (p1,n1) cursor after, (p0,n0) before */
@@ -95,8 +102,8 @@ static uint64_t spec_handle2_size(const uint8_t *p, size_t n) {
  * LEB128 encoding is pinned by the lengths V64_SIZE. */
 static int spec_handle_is(const uint8_t *zp, uint64_t off, uint64_t sz) {
   size_t k1 = V64_SIZE(off), k2 = V64_SIZE(sz);
-  SPEC_WINDOW(w, zp, k1 + k2);
-  return spec_wlen(w, 0) == k1 && spec_wval(w, 0, k1) == off && spec_wlen(w, k1) == k2 && spec_wval(w, k1, k2) == sz;
+  SPEC_WINDOW20(w, zp, k1 + k2);
+  return SPEC_WLEN(w, 0) == k1 && SPEC_WVAL(w, 0, k1) == off && SPEC_WLEN(w, k1) == k2 && SPEC_WVAL(w, k1, k2) == sz;
 }
 #define SPEC_HLEN(off, sz) ((size_t)(V64_SIZE(off) + V64_SIZE(sz)))
 #define POST_HANDLE_WRITE(e, zp, off, sz) ((e) == (zp) + SPEC_HLEN(off, sz) && spec_handle_is(zp, off, sz))
@@ -121,16 +128,15 @@ static int spec_footer_ok(const uint8_t *p, size_t n) {
  * length >= 4), magic little-endian at 40 */
 static int spec_footer_is(const uint8_t *zp, uint64_t mo, uint64_t ms, uint64_t io, uint64_t is) {
   size_t k1 = V64_SIZE(mo), k2 = V64_SIZE(ms), k3 = V64_SIZE(io), k4 = V64_SIZE(is);
-  size_t L = k1 + k2 + k3 + k4, j;
+  size_t L = k1 + k2 + k3 + k4;
   SPEC_WINDOW(w, zp, 40);
-  if (!(spec_wlen(w, 0) == k1 && spec_wval(w, 0, k1) == mo && spec_wlen(w, k1) == k2 && spec_wval(w, k1, k2) == ms)) return 0;
-  if (!(spec_wlen(w, k1 + k2) == k3 && spec_wval(w, k1 + k2, k3) == io && spec_wlen(w, k1 + k2 + k3) == k4 && spec_wval(w, k1 + k2 + k3, k4) == is)) return 0;
+  if (!(SPEC_WLEN(w, 0) == k1 && SPEC_WVAL(w, 0, k1) == mo && SPEC_WLEN(w, k1) == k2 && SPEC_WVAL(w, k1, k2) == ms)) return 0;
+  if (!(SPEC_WLEN(w, k1 + k2) == k3 && SPEC_WVAL(w, k1 + k2, k3) == io && SPEC_WLEN(w, k1 + k2 + k3) == k4 && SPEC_WVAL(w, k1 + k2 + k3, k4) == is)) return 0;
 #define FZ_(j) if ((size_t)(j) >= L && w[j] != 0) return 0
   FZ_(4); FZ_(5); FZ_(6); FZ_(7); FZ_(8); FZ_(9); FZ_(10); FZ_(11); FZ_(12); FZ_(13); FZ_(14); FZ_(15); FZ_(16); FZ_(17); FZ_(18); FZ_(19);
   FZ_(20); FZ_(21); FZ_(22); FZ_(23); FZ_(24); FZ_(25); FZ_(26); FZ_(27); FZ_(28); FZ_(29); FZ_(30); FZ_(31); FZ_(32); FZ_(33); FZ_(34); FZ_(35);
   FZ_(36); FZ_(37); FZ_(38); FZ_(39);
 #undef FZ_
-  (void)j;
   return IS_LE64(zp + SPEC_FOOTER_PAD_END, SPEC_TABLE_MAGIC);
 }
 #define POST_FOOTER_WRITE(e, zp, mo, ms, io, is) ((e) == (zp) + SPEC_FOOTER_SIZE && spec_footer_is(zp, mo, ms, io, is))
@@ -150,6 +156,8 @@ uint8_t *c_handle_write(uint8_t *zp, const ldb_handle_t *x)
 __CPROVER_requires(__CPROVER_r_ok(x, sizeof(*x)))
 __CPROVER_requires(__CPROVER_w_ok(zp, SPEC_HLEN(x->offset, x->size)))
 __CPROVER_assigns(__CPROVER_object_from(zp))
+/* keeps the points-to set of the returned cursor across a replaced call */
+__CPROVER_ensures(__CPROVER_pointer_in_range_dfcc(zp, __CPROVER_return_value, zp + SPEC_HLEN(x->offset, x->size)))
 __CPROVER_ensures(POST_HANDLE_WRITE(__CPROVER_return_value, zp, x->offset, x->size))
 ;
 
@@ -157,6 +165,8 @@ int c_handle_read(ldb_handle_t *z, const uint8_t **xp, size_t *xn)
 __CPROVER_requires(__CPROVER_w_ok(z, sizeof(*z)) && __CPROVER_rw_ok(xp, sizeof(*xp)) && __CPROVER_rw_ok(xn, sizeof(*xn)))
 __CPROVER_requires(__CPROVER_r_ok(*xp, *xn))
 __CPROVER_assigns(z->offset, z->size, *xp, *xn)
+/* keeps the points-to set of the cursor across a replaced call (dfcc havocs *xp) */
+__CPROVER_ensures(__CPROVER_pointer_in_range_dfcc(__CPROVER_old(*xp), *xp, __CPROVER_old(*xp) + __CPROVER_old(*xn)))
 __CPROVER_ensures(POST_HANDLE_READ_RET(__CPROVER_return_value, __CPROVER_old(*xp), __CPROVER_old(*xn)))
 __CPROVER_ensures(POST_HANDLE_READ_OK(__CPROVER_return_value, z->offset, z->size, *xp, *xn, __CPROVER_old(*xp), __CPROVER_old(*xn)))
 __CPROVER_ensures(POST_HANDLE_READ_FAIL(__CPROVER_return_value, *xp, *xn, __CPROVER_old(*xp), __CPROVER_old(*xn)))
@@ -184,6 +194,8 @@ int c_footer_read(ldb_footer_t *z, const uint8_t **xp, size_t *xn)
 __CPROVER_requires(__CPROVER_w_ok(z, sizeof(*z)) && __CPROVER_rw_ok(xp, sizeof(*xp)) && __CPROVER_rw_ok(xn, sizeof(*xn)))
 __CPROVER_requires(__CPROVER_r_ok(*xp, *xn))
 __CPROVER_assigns(z->metaindex_handle.offset, z->metaindex_handle.size, z->index_handle.offset, z->index_handle.size, *xp, *xn)
+/* keeps the points-to set of the cursor across a replaced call (dfcc havocs *xp) */
+__CPROVER_ensures(__CPROVER_pointer_in_range_dfcc(__CPROVER_old(*xp), *xp, __CPROVER_old(*xp) + __CPROVER_old(*xn)))
 __CPROVER_ensures(POST_FOOTER_READ_RET(__CPROVER_return_value, __CPROVER_old(*xp), __CPROVER_old(*xn)))
 __CPROVER_ensures(POST_FOOTER_READ_OK(__CPROVER_return_value, z->metaindex_handle.offset, z->metaindex_handle.size,
                                       z->index_handle.offset, z->index_handle.size, *xp, *xn, __CPROVER_old(*xp), __CPROVER_old(*xn)))
